@@ -5,7 +5,8 @@ META = dict(
     functions=['pmutt.eos.IdealGasEOS.get_V/get_P/get_T/get_n',
                'pmutt.eos.vanDerWaalsEOS.get_Vm/get_V/get_P/get_T/get_n/get_Pc/get_Tc/get_Vc/from_critical'],
     bounds=dict(quick='T 50-3000 K, P 1e-3-1e3 bar, n 1e-3-1e3 mol, a 0.003-3, b 1e-5-2e-4, Vm in (b, 10] m3/mol, Tc 5-1000 K, Pc 1-300 bar; '
-                      'all symbolic reals'),
+                      'all symbolic reals; root groups also for dilute states P 1e-9-1e-3 bar; the largest/smallest-root comparison is applied on '
+                      'the paths where the polynomial handed to numpy.roots is (solver-decided) the cubic in Vm'),
     outside_claim=['that numpy.roots returns every root of the cubic (stub: each returned value satisfies the cubic the code hands over)',
                    'the limit statement is proved as an explicit bound |P_vdW - P_ig| <= a/Vm^2 + b R T/(Vm (Vm-b))', 'IEEE rounding'],
     stubs=['numpy.roots(c): three values satisfying the cubic handed over: one real root r0 (p(r0) = 0) and either two more real roots or a '
@@ -401,11 +402,11 @@ def groups(tier):
         dict(name='ideal/inversions', harness=h_ideal),
         dict(name='ideal/defaults', harness=h_ideal_defaults),
         dict(name='vdw/T-P-inversions+limit', harness=h_vdw_TP),
-        dict(name='vdw/roots/gas', harness=h_vdw_roots, params=dict(gas_phase=True), branch_timeout_ms=700, remote_feasibility=True),
-        dict(name='vdw/roots/liquid', harness=h_vdw_roots, params=dict(gas_phase=False), branch_timeout_ms=700, remote_feasibility=True),
-        dict(name='vdw/roots/liquid/dilute', harness=h_vdw_roots, params=dict(gas_phase=False, P_range=(1e-9, 1e-3)), branch_timeout_ms=700,
+        dict(name='vdw/roots/gas', harness=h_vdw_roots, params=dict(gas_phase=True), branch_timeout_ms=700, timeout_ms=150000, remote_feasibility=True),
+        dict(name='vdw/roots/liquid', harness=h_vdw_roots, params=dict(gas_phase=False), branch_timeout_ms=700, timeout_ms=150000, remote_feasibility=True),
+        dict(name='vdw/roots/liquid/dilute', harness=h_vdw_roots, params=dict(gas_phase=False, P_range=(1e-9, 1e-3)), branch_timeout_ms=700, timeout_ms=150000,
              remote_feasibility=True),
-        dict(name='vdw/roots/gas/dilute', harness=h_vdw_roots, params=dict(gas_phase=True, P_range=(1e-9, 1e-3)), branch_timeout_ms=700,
+        dict(name='vdw/roots/gas/dilute', harness=h_vdw_roots, params=dict(gas_phase=True, P_range=(1e-9, 1e-3)), branch_timeout_ms=700, timeout_ms=150000,
              remote_feasibility=True),
         dict(name='vdw/cubic', harness=h_vdw_cubic, no_validate=True, branch_timeout_ms=700),
         dict(name='vdw/critical', harness=h_vdw_critical),
